@@ -278,6 +278,14 @@ where
     for entry in &proof.non_primitives {
         air_public_counts.push(entry.public_values.len());
     }
+    // `allocate` asserts this equality; a proof with an instance added or removed must be an error.
+    if proof.proof.opened_values.instances.len() != air_public_counts.len() {
+        return Err(VerificationError::InvalidProofShape(format!(
+            "opened values for {} instances, expected {}",
+            proof.proof.opened_values.instances.len(),
+            air_public_counts.len()
+        )));
+    }
     let verifier_inputs = BatchStarkVerifierInputsBuilder::<SC, Comm, OpeningProof>::allocate(
         circuit,
         &proof.proof,
@@ -377,6 +385,7 @@ where
     if airs.len() != instances.len()
         || airs.len() != public_values.len()
         || airs.len() != proof_targets.degree_bits.len()
+        || airs.len() != lookup_terminals.len()
     {
         return Err(VerificationError::InvalidProofShape(
             "Mismatch between number of AIRs, instances, public values, or degree bits".to_string(),
